@@ -384,16 +384,28 @@ class Ctx:
         return time.time() - self.t0
 
 
+def _text(s):
+    """a str that can be written as UTF-8: lone surrogates (names that are not valid UTF-8, as os.fsdecode gives them) become
+       visible escapes instead of crashing the writer"""
+    try:
+        s.encode("utf-8")
+        return s
+    except UnicodeEncodeError:
+        return s.encode("utf-8", "backslashreplace").decode("utf-8")
+
+
 def jsonable(x):
     if isinstance(x, (bytes, bytearray)):
         return {"hex": bytes(x).hex()}
     if isinstance(x, dict):
-        return {(k if isinstance(k, str) else repr(k)): jsonable(v) for k, v in x.items()}
+        return {(_text(k) if isinstance(k, str) else repr(k)): jsonable(v) for k, v in x.items()}
     if isinstance(x, (list, tuple, set)):
         return [jsonable(v) for v in x]
-    if isinstance(x, (int, float, str, bool)) or x is None:
+    if isinstance(x, str):
+        return _text(x)
+    if isinstance(x, (int, float, bool)) or x is None:
         return x
-    return repr(x)
+    return _text(repr(x))
 
 
 def write_replay(ctx, n, payload):
@@ -436,7 +448,7 @@ def write_evidence(ctx, audit, checker_cmd, trusted_base, rule, assumptions, vio
         os.environ.get("VERIF_EVIDENCE_DIR", os.path.join(tempfile.gettempdir(), "verif-evidence-other-tree"))
     os.makedirs(evdir, exist_ok=True)
     with open(os.path.join(evdir, f"{ctx.prop}.json"), "w", encoding="utf-8") as fd:
-        json.dump(ev, fd, indent=1, ensure_ascii=False)
+        json.dump(jsonable(ev), fd, indent=1, ensure_ascii=False)
 
 
 class Scratch:
